@@ -103,6 +103,8 @@ def dec(o):
             return np.array(dec(o["__nd32__"]), dtype=np.float32)
         if "__npint__" in o:
             return getattr(np, o["__npint__"][0])(o["__npint__"][1])
+        if "__npscalar__" in o:
+            return getattr(np, o["__npscalar__"][0])(o["__npscalar__"][1])
         if "__ndu16__" in o:
             return np.array(o["__ndu16__"], dtype=np.uint16)
         if "__ndint__" in o:
